@@ -12,7 +12,7 @@ import (
 func init() {
 	register(&Check{
 		ID: "C06", Level: "exploration", QuickSecs: 150, ThoroughSecs: 1200,
-		Rule:        "(F1) all block-free bodies over {'a','b',\"ab\",\"\",[ab],[^a],.} x {?,*,+,&,!} x seq/choice up to N nodes (quick 4, thorough 5); (F2) every single label+action decoration for N<=3; (F3) forced revisits: a rule R (every body up to 4 nodes, every single label placement, with a rule-level action, an always-failing action error, or a label-dependent predicate) reached at one offset along two paths by the templates {R 'b' / R, &R R, R 'b' / . r:R {act}, R / . R, (R 'b' / R)*}. (F4) left-recursive grammars generated with -support-left-recursion (direct, two-level tower, indirect pairs with both name orders entered through either rule). Inputs over {a,b} up to L=3 (4). All 8 combinations of Memoize, Debug, Statistics: success/failure, value and code-block errors must equal the default-option run (which itself is compared with the reference); with Memoize every (block, start offset) is invoked at most once and Stats.ExprCnt <= (#expressions of the emitted grammar) x (len+1). Non-trivial = under Memoize at least one memo hit changed the number of block invocations or evaluated expressions.",
+		Rule:        "(F1) all block-free bodies over {'a','b',\"ab\",\"\",[ab],[^a],.} x {?,*,+,&,!} x seq/choice up to N nodes (quick 4, thorough 5); (F2) every single label+action decoration for N<=3; (F3) forced revisits: a rule R (every body up to 4 nodes, every single label placement, with a rule-level action, an always-failing action error, or a label-dependent predicate; for bodies up to 3 (4) nodes also INLINE: the block parenthesised behind the variable-width prefix \"a\"* - thorough also [ab]? - so that the rule starts at two offsets but the block at one) reached at one offset along two paths by the templates {R 'b' / R, &R R, R 'b' / . r:R {act}, R / . R, (R 'b' / R)*}. (F4) left-recursive grammars generated with -support-left-recursion (direct, two-level tower, indirect pairs with both name orders entered through either rule). Inputs over {a,b} up to L=3 (4). All 8 combinations of Memoize, Debug, Statistics: success/failure, value and code-block errors must equal the default-option run (which itself is compared with the reference); with Memoize every (block, start offset) is invoked at most once and Stats.ExprCnt <= (#expressions of the emitted grammar) x (len+1). Non-trivial = under Memoize at least one memo hit changed the number of block invocations or evaluated expressions.",
 		Assumptions: []string{"E1 loader", "blocks are pure functions of text, pos and their labels by construction"},
 		Run:         runC06,
 	})
